@@ -265,4 +265,161 @@ theorem run_fixed_no_panic : ∀ (sched : List Step) (s : St), (run true s sched
     · rename_i h'; rw [h'] at h; cases h
     · rfl
 
+theorem indexOK_inj {h : HS} (ok : IndexOK h) {i j : Nat} (hi : i < h.pq.length) (hj : j < h.pq.length)
+    (e : h.pq[i] = h.pq[j]) : i = j := by
+  have a := ok i hi
+  have b := ok j hj
+  rw [e] at a
+  rw [a] at b
+  exact Int.ofNat.inj b
+
+theorem swap_eq (s : HS) (i j : Nat) (hi : i < s.pq.length) (hj : j < s.pq.length) :
+    swap s i j = some { objs := setIndex (setIndex s.objs (s.pq[j]) i) (s.pq[i]) j,
+                        pq := (s.pq.set i (s.pq[j])).set j (s.pq[i]) } := by
+  unfold swap
+  simp [hi, hj]
+
+theorem swap_indexOK (s s' : HS) (i j : Nat) (ok : IndexOK s) (h : swap s i j = some s') : IndexOK s' := by
+  by_cases hb : i < s.pq.length ∧ j < s.pq.length
+  · obtain ⟨hi, hj⟩ := hb
+    rw [swap_eq s i j hi hj] at h
+    cases h
+    intro k hk
+    simp only [List.length_set] at hk
+    simp only [List.getElem_set]
+    by_cases hkj : j = k
+    · subst hkj
+      simp [setIndex]
+    · simp only [hkj, if_false]
+      by_cases hki : i = k
+      · subst hki
+        simp only [if_true]
+        have hne : s.pq[j] ≠ s.pq[i] := by
+          intro e
+          exact hkj (indexOK_inj ok hj hi e)
+        simp [setIndex, hne]
+      · simp only [hki, if_false]
+        have h1 : s.pq[k] ≠ s.pq[i] := fun e => hki (indexOK_inj ok hk hi e).symm
+        have h2 : s.pq[k] ≠ s.pq[j] := fun e => hkj (indexOK_inj ok hk hj e).symm
+        simp [setIndex, h1, h2]
+        exact ok k hk
+  · rw [swap_none s i j hb] at h
+    cases h
+
+theorem up_indexOK : ∀ (fuel : Nat) (s s' : HS) (j : Nat), IndexOK s → up fuel s j = some s' → IndexOK s' := by
+  intro fuel
+  induction fuel with
+  | zero => intro s s' j _ h; simp [up] at h
+  | succ f ih =>
+    intro s s' j ok h
+    unfold up at h
+    split at h
+    · cases h; exact ok
+    · split at h
+      · split at h
+        · cases h; exact ok
+        · split at h
+          · cases h
+          · rename_i s1 h1
+            exact ih s1 s' _ (swap_indexOK s s1 _ _ ok h1) h
+      · cases h
+
+theorem down_indexOK : ∀ (fuel : Nat) (s s' : HS) (i n : Nat), IndexOK s → down fuel s i n = some s' → IndexOK s' := by
+  intro fuel
+  induction fuel with
+  | zero => intro s s' i n _ h; simp [down] at h
+  | succ f ih =>
+    intro s s' i n ok h
+    unfold down at h
+    split at h
+    · cases h; exact ok
+    · split at h
+      · cases h
+      · split at h
+        · split at h
+          · cases h; exact ok
+          · split at h
+            · cases h
+            · rename_i s1 h1
+              exact ih s1 s' _ _ (swap_indexOK s s1 _ _ ok h1) h
+        · cases h
+
+/-- `Push(x)` of an object that is not in the heap keeps every index field right -/
+theorem push_indexOK (s s' : HS) (x : Nat) (ok : IndexOK s) (hx : x ∉ s.pq) (h : push s x = some s') : IndexOK s' := by
+  unfold push at h
+  apply up_indexOK _ _ _ _ _ h
+  intro k hk
+  simp only [List.length_append, List.length_singleton] at hk
+  by_cases hkl : k < s.pq.length
+  · have : (s.pq ++ [x])[k] = s.pq[k] := List.getElem_append_left hkl
+    simp only [this]
+    have hne : s.pq[k] ≠ x := fun e => hx (e ▸ List.getElem_mem hkl)
+    simp [setIndex, hne]
+    exact ok k hkl
+  · have hke : k = s.pq.length := by omega
+    subst hke
+    simp [setIndex]
+
+theorem dropLast_indexOK (s : HS) (r : HS × Nat) (ok : IndexOK s) (h : dropLast s = some r) :
+    IndexOK r.1 ∧ (r.1.objs r.2).index = -1 ∧ r.2 ∉ r.1.pq := by
+  unfold dropLast at h
+  split at h
+  · rename_i hpos
+    cases h
+    simp only []
+    have hlast : s.pq.length - 1 < s.pq.length := by omega
+    have hnotin : s.pq[s.pq.length - 1] ∉ s.pq.take (s.pq.length - 1) := by
+      intro hm
+      obtain ⟨k, hk, hke⟩ := List.getElem_of_mem hm
+      simp only [List.length_take] at hk
+      have hk' : k < s.pq.length := by omega
+      rw [List.getElem_take] at hke
+      have := indexOK_inj ok hk' hlast hke
+      omega
+    refine ⟨?_, by simp [setIndex], hnotin⟩
+    intro k hk
+    simp only [List.length_take] at hk
+    have hk' : k < s.pq.length := by omega
+    rw [List.getElem_take]
+    have hne : s.pq[k] ≠ s.pq[s.pq.length - 1] := by
+      intro e
+      have := indexOK_inj ok hk' hlast e
+      omega
+    simp [setIndex, hne]
+    exact ok k hk'
+  · cases h
+
+theorem pop_indexOK (s : HS) (r : HS × Nat) (ok : IndexOK s) (h : pop s = some r) :
+    IndexOK r.1 ∧ (r.1.objs r.2).index = -1 ∧ r.2 ∉ r.1.pq := by
+  unfold pop at h
+  split at h
+  · cases h
+  · split at h
+    · cases h
+    · rename_i s1 h1
+      split at h
+      · cases h
+      · rename_i s2 h2
+        exact dropLast_indexOK s2 r (down_indexOK _ _ _ _ _ (swap_indexOK _ _ _ _ ok h1) h2) h
+
+theorem remove_indexOK (s : HS) (i : Int) (r : HS × Nat) (ok : IndexOK s) (h : remove s i = some r) :
+    IndexOK r.1 ∧ (r.1.objs r.2).index = -1 ∧ r.2 ∉ r.1.pq := by
+  unfold remove at h
+  split at h
+  · cases h
+  · split at h
+    · exact dropLast_indexOK s r ok h
+    · split at h
+      · cases h
+      · rename_i s1 h1
+        split at h
+        · cases h
+        · rename_i s2 h2
+          split at h
+          · cases h
+          · rename_i s3 h3
+            exact dropLast_indexOK s3 r
+              (up_indexOK _ _ _ _ (down_indexOK _ _ _ _ _ (swap_indexOK _ _ _ _ ok h1) h2) h3) h
+
+
 end Nsq.Proofs.InFlight
